@@ -1,15 +1,16 @@
 """C20 — dynamic lookups are invoked only with a sanitised realm argument."""
 ID = "C20"
-LEAN_TARGETS = ["Rsp.Props.C20", "Rsp.Tie.C20"]
+LEAN_TARGETS = ["Rsp.Props.C20", "Rsp.Props.C07Discover", "Rsp.Tie.C20"]
 THEOREMS = ["Rsp.Tie.C20.dynRealmBad_tie", "Rsp.Props.C20.dynRealmOf_some_iff", "Rsp.Props.C20.dynRealmOf_sanitised", "Rsp.Props.C20.exec_argv", "Rsp.Props.C20.dns_names",
             "Rsp.Props.C20.no_realm_no_lookup", "Rsp.Props.C20.afterLastAt_some", "Rsp.Props.C20.afterLastAt_none",
-            "Rsp.Props.C20.refind_restart", "Rsp.Props.C20.refind_sanitised", "Rsp.Props.C20.refind_restart_last_realm"]
+            "Rsp.Props.C20.refind_restart", "Rsp.Props.C20.refind_sanitised", "Rsp.Props.C20.refind_restart_last_realm",
+            "Rsp.Props.C07.sortSrv_sorted", "Rsp.Props.C07.sortSrv_length", "Rsp.Props.C07.naptrPick_skips"]
 RULE = ("the real adddynamicrealmserver -> addserver -> clientwr thread -> dynamicconfig path, with execlp and the resolver replaced by recorders, on User-Names whose realm part holds "
         "EVERY octet value 1..255 at the first, a middle and the last position (exhaustive), plus lengths 0..253, zero/one/many '@', shell metacharacters, whitespace, leading '-', "
         "non-ASCII, embedded NUL; commands of the external, naptr: and srv: forms (with and without trailing dot, mixed case). non-trivial = realm part contains a rejected octet or a "
         "boundary shape. The restart path: the real findserver() on a realm with a dynamic server and a dynamic accounting server, a first identifier creating the sub-realm, the "
         "discovered server giving up (its hold-down ends while the other keeps the sub-realm), then a second identifier: same realm, other letter case, several '@' with shell text "
-        "before the suffix, the sub-realm's text as a proper suffix, other realms, unacceptable realm parts")
+        "before the suffix, the sub-realm's text as a proper suffix, other realms, unacceptable realm parts. Discovery through the DNS carried to its end (op dyndns): scripted NAPTR and SRV answers, which names are asked and what the discovered server is called and pointed at")
 EXHAUSTIVE = {"quick": ["every octet value 1..255 at first/middle/last position of the realm part"], "thorough": ["every octet value 1..255 at first/middle/last position of the realm part, x 3 command forms"]}
 ASSUMPTIONS = ["the C locale (radsecproxy never calls setlocale): isalnum is the ASCII test", "the User-Name reaches findserver as a C string (octets after an embedded NUL are not seen)"]
 LEVEL_TEXT = ("Lean 4 theorems, for every identifier: a lookup starts iff the text after the last '@' is non-empty and all of its octets are ASCII letters, digits, '.' or '-' "
@@ -76,6 +77,10 @@ def gen(rng, tier):
         if rng.random() < 0.15:   # phase 1 itself not acceptable: phase 2 is a first lookup
             id1 = b"user@" + rng.choice([b"bad realm", b"", b"x;y"])
         cs.append(Case("dynfind %s %s %s" % (hx(rng.choice(CMDS)), hx(id1), hx(id2)), kind="refind-%d" % style, rejected=int(style in (2, 3, 5))))
+    # discovery through the DNS carried on to the end: which names are asked (realm, NAPTR replacement), what the server is called
+    import dnsgen
+    for _ in range(300 if tier == "quick" else 8000):
+        cs.append(Case(dnsgen.dyndns_line(rng), kind="dns-discovery", rejected=0))
     return cs
 
 
